@@ -212,7 +212,7 @@ def r18_3(ctx):
 def rules(ctx):
     from ..engine import only
     from . import c16
-    return [__import__('vjsx.rules.c10', fromlist=['x']).field_ratchet('defaults must not depend on what was resolved before'), r18_1, r18_2, r18_3, r18_4,
+    return [__import__('vjsx.rules.c16', fromlist=['x']).r16_9, __import__('vjsx.rules.c10', fromlist=['x']).field_ratchet('defaults must not depend on what was resolved before'), r18_1, r18_2, r18_3, r18_4,
             only(c16.r16_1, lambda k: k.startswith("props_extractor"), "the written default is taken the same way for every form of the setup function / its first parameter")]
 
 
